@@ -82,8 +82,10 @@ def verify_update(world, units, spec: M.Spec, concrete_cls=None, engine_kw=None,
     m = world.find_member(cname, spec.fn)
     if m is None: raise KeyError(f"{cname}.{spec.fn}")
     k, mod, fn = m
+    k_ = k
     qual = f"{mod}.{k}.{spec.fn}"
     ex = extract(qual)
+    is_prop = any(isinstance(d, __import__("ast").Name) and d.id == "property" for d in fn.decorator_list)
     eng = Engine(**(engine_kw or {}))
     fnname = f"{qual} [self: {cname}{', ' + variant if variant else ''}]"
 
@@ -92,6 +94,7 @@ def verify_update(world, units, spec: M.Spec, concrete_cls=None, engine_kw=None,
         world.list_hooks = {("ServerBase", "jobs"): M._jobs_hook}
         world.attr_invariants = M.ATTR_INV
         world.loop_specs = M.LOOP_SPECS
+        world.specs = {k: v for k, v in M.WORLD_SPECS.items() if k != (k_, spec.fn)}
         try:
             o = world.new_obj(cname, "self")
             o.variant = variant
@@ -104,8 +107,9 @@ def verify_update(world, units, spec: M.Spec, concrete_cls=None, engine_kw=None,
             I.phase = "body"
             loops = spec.loops(I, g) if callable(spec.loops) else spec.loops
             try:
-                I.exec_function(ex.node, [o], loop_specs=loops, qualname=qual)
-                got = ("ret", None)
+                if not loops: loops = M.LOOP_SPECS.get(qual)
+                rv_ = I.exec_function(ex.node, [o], loop_specs=loops, qualname=qual)
+                got = ("ret", rv_)
             except SymRaise as e:
                 got = ("raise", e.exc)
             if got[0] != want[0]:
@@ -116,9 +120,13 @@ def verify_update(world, units, spec: M.Spec, concrete_cls=None, engine_kw=None,
                 eng_.oblige(f"{qual}/raises {want[1]}", got[1] == want[1])
                 eng_.oblige(f"{qual}/frame: nothing written when raising", len(o.writes) == 0, kind="frame")
                 return
-            check_frame(I, o, spec.attr, qual)
-            check_reads(I, world, cname, spec.attr, qual)
-            res = o.attrs.get(spec.attr)
+            if spec.attr:
+                check_frame(I, o, spec.attr, qual)
+                check_reads(I, world, cname, spec.attr, qual)
+                res = o.attrs.get(spec.attr)
+            else:
+                eng_.oblige(f"{qual}/frame: a property writes nothing", len(o.writes) == 0, kind="frame")
+                res = got[1]
             w = want[1]
             if isinstance(w, MV): equiv_mv(I, res, w, qual)
             elif isinstance(w, tuple) and w[0] == "q": equiv_q(I, res, w[1], w[2], qual)
